@@ -10,7 +10,8 @@ EXPLANATION = (
     "covered only by the bounded stand-in (labelled bounded): every Tree/TreeSequence accessor, seek, statistic and "
     "table algorithm called with boundary identifiers, positions and windows on valid tree sequences, and every "
     "table-collection algorithm called on collections with one corrupted cell (out-of-range ids, NaN/inf "
-    "coordinates, bad indexes), each call in a forked child so that a crash, abort or hang is observed."
+    "coordinates, bad indexes), each call in a forked child of an AddressSanitizer build of the working tree, so "
+    "that a crash, abort, hang or out-of-bounds / use-after-free access inside the C library is observed."
 )
 C_FUNCS = [
     ("tables.c", "tsk_ibd_finder_init_samples_from_set"),
@@ -34,7 +35,7 @@ C_FUNCS = [
     # every index the table getters and comparisons form stays inside the columns (BOUNDS obligations)
 ] + [("tables.c", "tsk_%s_table_%s" % (t, f)) for t in ("edge", "site", "mutation", "migration", "individual", "population", "provenance")
      for f in ("get_row", "get_row_unsafe", "equals")] + [("tables.c", "tsk_node_table_equals")]
-BOUNDED = [{"name": "adversarial_api_calls", "module": "standins.c09_adversarial", "timeout": 1500}]
+BOUNDED = [{"name": "adversarial_api_calls", "module": "standins.c09_adversarial", "timeout": 2400, "asan": True}]
 UNVERIFIED = ["python/_tskitmodule.c (CPython API; exercised only by the bounded stand-in)", "tsk_ibd_finder_add_sample_ancestry (assumed contract)",
               "ancestor_mapper_add_ancestry (assumed contract)", "allocation-failure paths beyond NULL checks"]
 LEMMAS = ["lemmas.induction:psum_monotone"]
